@@ -230,6 +230,14 @@ def live_of(w, tag):
     return [k for k in started_of(w, tag) if k not in w.exited]
 
 
+def skipped_of(w, tag):
+    """call indices of the request that raised at the call site (SimpleTaskPool: one function per pool)"""
+    r = w.reqs[tag]
+    if r.kind == "start":
+        return w.skipped.get(w.simple_reqs[r.p].tag, ())
+    return w.skipped.get(tag, ())
+
+
 def never_started_cancelled(w, tag):
     req = w.reqs[tag]
     return {t for t in w.created.get(tag, ()) if (req.p, t) not in w.started and (req.p, t) in w.cancel_targets}
@@ -514,7 +522,7 @@ class C08(Monitor):
                 for t, r in w.reqs.items():
                     if r.p != p or t in w.group_cancelled:
                         continue
-                    made = len(w.created.get(t, ())) + len(w.skipped.get(t, ()))
+                    made = len(w.created.get(t, ())) + len(skipped_of(w, t))
                     if made != r.num:
                         self.v("gather_and_close returned before a request was fully spawned", t, made, r.num)
                     if r.kind == "map" and w.pulled[t] != r.num:
